@@ -115,6 +115,9 @@ func c04Scripts(tier string) []uciParams {
 	}
 	out = append(out, uciParams{Engine: "sargon", Flags: map[string]string{"noise": "0"}, Script: []string{"setoption name OwnBook value false", "position fen " + kP1, "go", "await", "go", "await"}, Final: "quit", Oracle: "c04", Horizon: 900})
 	out = append(out, uciParams{Engine: "turochamp", Script: []string{"position fen " + kP1, "go", "await"}, Final: "quit", Oracle: "c04", Horizon: 1500})
+	// the engine's own depth option bounds a bare go
+	out = append(out, uciParams{Engine: "plain", Script: []string{"setoption name Depth value 2", "position fen " + kP1, "go", "await", "setoption name Depth value 1", "go", "await"}, Final: "quit", Oracle: "c04", Horizon: 900})
+	out = append(out, uciParams{Engine: "morlock", Script: []string{"setoption name Depth value 1", "setoption name Hash value 1", "position fen " + kP2, "go", "await"}, Final: "quit", Oracle: "c04", Horizon: 900})
 	out = append(out, uciParams{Engine: "morlock", Script: []string{"setoption name Hash value 1", "position fen " + kP1, "go depth 2", "await", "go depth 2", "await"}, Final: "quit", Oracle: "c04", Horizon: 900})
 	return out
 }
